@@ -53,6 +53,34 @@ let run_ownership (parts : string list) : string =
     let viol = match v with Some O -> "0" | Some _ -> "1" | None -> "?" in
     Printf.sprintf "viol=%s code=%s pinned=%s all=%s" viol (code_str v) (code_str (doh_verdict true (nat_of_int k)))
       (if all_safe 13 then "safe" else "unsafe")
+  | "rdfault" | "listen" | "fallback" | "handover" | "emptyresp" | "prefetch" as sc ->
+    (* round 4: fault paths and pooled objects. model of record = the code as it is (even protocol numbers);
+       pinned column = the verdicts of the variants for the same named schedule *)
+    let p, k, variants = (match sc, sched with
+      | ("rdfault" | "listen"), ("complete" | "two-frames") -> 0, 0, [1]
+      | ("rdfault" | "listen"), ("eof-before-frame" | "short-prefix") -> 0, 1, [1]
+      | ("rdfault" | "listen"), ("short-body" | "reset-mid-body" | "stall-mid-body") -> 0, 2, [1]
+      | ("rdfault" | "listen"), "short-body-overlap" -> 0, 3, [1]
+      | "fallback", "plain" -> 2, 0, [3; 4]
+      | "fallback", "tc-tcp-ok" -> 2, 1, [3; 4]
+      | "fallback", ("tc-tcp-close" | "tc-tcp-refused" | "tc-tcp-short" | "tc-tcp-garbage" | "tc-tcp-timeout") -> 2, 2, [3; 4]
+      | "fallback", "tc-tcp-close-overlap" -> 2, 4, [3; 4]
+      | "fallback", "udp-timeout" -> 2, 3, [3; 4]
+      | "handover", "reply-no-cancel" -> 5, 0, [6]
+      | "handover", ("cancel-after-reply" | "deadline-after-reply") -> 5, 1, [6]
+      | "handover", "cancel-before-reply" -> 5, 2, [6]
+      | "emptyresp", _ -> 7, 0, [8]
+      | "prefetch", "hit-fresh" -> 9, 0, [10]
+      | "prefetch", "hit-last-quarter" -> 9, 1, [10]
+      | _, s -> failwith ("unknown schedule " ^ s)) in
+    let v = own4_verdict (nat_of_int p) (nat_of_int k) in
+    let viol = match v with Some O -> "0" | Some _ -> "1" | None -> "?" in
+    let pinned = String.concat "/" (List.map (fun q -> code_str (own4_verdict (nat_of_int q) (nat_of_int k))) variants) in
+    let safe =
+      (match Hashtbl.find_opt all_cache (100 + p) with
+       | Some b -> b
+       | None -> let pr = own4_proto (nat_of_int p) in let b = check pr (states pr) in Hashtbl.add all_cache (100 + p) b; b) in
+    Printf.sprintf "viol=%s code=%s pinned=%s all=%s" viol (code_str v) pinned (if safe then "safe" else "unsafe")
   | s -> failwith ("unknown scenario " ^ s)
 
 let () = register "ownership" run_ownership
